@@ -25,8 +25,8 @@ CLAIMED = {
             "DESIGN.md §7 C03"),
     "C04": ("exploration",
             "property-based testing (proptest) against an RFC 4034 reference order/equality model + exhaustive small-scope pair enumeration",
-            "Generated names, related pairs/triples, pools, wire contexts and constructor programs are checked against an independent canonical-order / case-folded-equality model, a wire round trip at arbitrary offsets with and without compression, a text round trip for host-style names, and the 255/63 limits after every constructor step. Sampling, not proof: it reports how many distinct non-trivial cases stood behind the verdict.",
-            "Trusts the harness's reference model (refm/canon.rs, ~60 lines from RFC 4034 §6.1) and proptest's generators; text clause limited to the alphabet the statement names.",
+            "Generated names, related pairs/triples, pools, wire contexts and constructor programs are checked against an independent canonical-order / case-folded-equality model, a wire round trip at arbitrary offsets with and without compression (single names, 40-320 names in one message so that the encoder's per-message compression budgets run out, and names inside the RDATA of NS/CNAME/PTR/MX/SOA/SRV/NAPTR/ANAME records), a text round trip for host-style names, and the 255/63 limits after every constructor step. Sampling, not proof: it reports how many distinct non-trivial cases stood behind the verdict.",
+            "Trusts the harness's reference model (refm/canon.rs, ~60 lines from RFC 4034 §6.1) and proptest's generators; text clause limited to the alphabet the statement names. Two known findings (Display of a valid-punycode label beside a non-STD3 label, and of a valid-punycode label with a non-LDH ASCII character inside) are excluded by signature.",
             "DESIGN.md §7 C04"),
     "C05": ("exploration",
             "property-based testing (proptest) + exhaustive order enumeration: hickory's TBS octets compared byte for byte with an independent RFC 4034 §6 / RFC 4035 §5.3.2 encoder; cross-signer differential with ring (third party signs → hickory verifies; hickory signs → third party verifies)",
@@ -45,7 +45,7 @@ CLAIMED = {
             "DESIGN.md §7 C07"),
     "C08": ("exploration",
             "small-scope enumeration + property-based testing (proptest): zones × queries × claims × every subset of the genuine NSEC chain into the validator's decision procedure; soundness judged by a semantic truth model of the zone, completeness against the proofs hickory's own server attaches (direct and end-to-end)",
-            "Every depth-2 zone over a small universe (quick ≤3 owners, thorough ≤4, larger sliced; depth 3 sampled) with ENTs, wildcards, delegations and DS is rendered into the harness's zone model, which yields the truth about every query and the genuine RFC 4035 NSEC chain. For every (zone, query, claim ∈ NXDOMAIN/NODATA/wildcard answer, SOA present/absent) and every non-empty subset of the chain, verify_nsec == Secure ⇒ the claim is true in the zone. Completeness: hickory's own signed InMemoryZoneHandler behind Catalog must attach NSECs that verify_nsec (and, sampled, the real DnssecDnsHandle) accepts; hickory's chain must equal the reference chain. Two forged end-to-end sub-properties hand the real DnssecDnsHandle (a) the NSEC of a wildcard owner renamed to a name below it and (b) the server's honest wildcard-expanded answer, direct or behind an in-zone CNAME, with every NSEC removed: neither may validate.",
+            "Every depth-2 zone over a small universe (quick ≤3 owners, thorough ≤4, larger sliced; depth 3 sampled) with ENTs, wildcards, delegations and DS is rendered into the harness's zone model, which yields the truth about every query and the genuine RFC 4035 NSEC chain. For every (zone, query, claim ∈ NXDOMAIN/NODATA/wildcard answer, SOA present/absent) and every non-empty subset of the chain, verify_nsec == Secure ⇒ the claim is true in the zone. Completeness: hickory's own signed InMemoryZoneHandler behind Catalog must attach NSECs that verify_nsec (and, sampled, the real DnssecDnsHandle) accepts; hickory's chain must equal the reference chain. Three forged end-to-end sub-properties hand the real DnssecDnsHandle (a) the NSEC of a wildcard owner renamed to a name below it, (b) the server's honest wildcard-expanded answer, direct or behind an in-zone CNAME, with every NSEC removed, and (c) the genuine RRset + RRSIG of a wildcard re-owned to a name below it whose true answer is negative, beside the honest expansion of a closer wildcard and with the whole NSEC chain attached: none may validate.",
             "Trusts refm/zonemodel.rs (truth predicate from RFC 1034 §4.3.2 / RFC 4592, not a re-reading of RFC 4035 §5.4). Thirteen known findings (ten in the NSEC validator/server, three authoritative-lookup ones shared with C10) are classified separately from the oracle and excluded by signature.",
             "DESIGN.md §7 C08"),
     "C09": ("exploration",
@@ -70,17 +70,17 @@ CLAIMED = {
             "DESIGN.md §7 C12"),
     "C13": ("exploration",
             "property-based testing (proptest) + exhaustive sweeps (every bit of 12 base requests, every MAC length): mutated signed requests through the real front door against an independent RFC 8945 MAC/time reference",
-            "UPDATE and AXFR requests signed by hickory's client side go through VerifFrontDoor → Catalog → SqliteZoneHandler under the virtual clock: 5 request kinds × 8 key sets × 3 HMAC algorithms × clock positions around the fudge window × 12 mutation families (bit flips, byte sets, count edits, TSIG field re-encodings, MAC truncation to every length, TSIG removed/duplicated/not last). Soundness: zone changed or zone data in the reply ⇒ the harness's own RFC 8945 digest over the received octets verifies at full length with a configured key and |now−time| ≤ fudge. Completeness: the unmodified request takes effect, its reply verifies with the client verifier, and every single-bit flip of the reply is rejected. A further sub-property builds the handler the way the server binary does (SqliteZoneHandler::try_from_config: zone file, TSIG key files, journal), half of the cases after a restart that recovers the zone from the journal, and judges with the same oracle. Client side: signed requests leave through the real DnsMultiplexer::with_signer and through the real UdpClientStream::with_signer (simulated runtime, reply = sequence of 1-3 datagrams); the server's reply comes back unmodified or edited (bit flip, byte set, TSIG removed, re-signed with another secret / request MAC, trailing octets): whatever the caller receives as Ok must carry the RFC 8945 5.3 response MAC, and the unmodified reply must arrive.",
+            "UPDATE and AXFR requests signed by hickory's client side go through VerifFrontDoor → Catalog → SqliteZoneHandler under the virtual clock: 5 request kinds × 8 key sets × 3 HMAC algorithms × clock positions around the fudge window × 12 mutation families (bit flips, byte sets, count edits, TSIG field re-encodings, MAC truncation to every length, TSIG removed/duplicated/not last). Soundness: zone changed or zone data in the reply ⇒ the harness's own RFC 8945 digest over the received octets verifies at full length with a configured key and |now−time| ≤ fudge. Completeness: the unmodified request takes effect, its reply verifies with the client verifier, and every single-bit flip of the reply is rejected. A further sub-property builds the handler the way the server binary does (SqliteZoneHandler::try_from_config: zone file, TSIG key files, journal), half of the cases after a restart that recovers the zone from the journal, and judges with the same oracle. Client side: signed requests leave through the real DnsMultiplexer::with_signer and through the real UdpClientStream::with_signer (simulated runtime, reply = sequence of 1-3 datagrams); the server's reply comes back unmodified or edited (bit flip, byte set, TSIG removed, re-signed with another secret / request MAC, trailing octets): whatever the caller receives as Ok must carry the RFC 8945 5.3 response MAC, and the unmodified reply must arrive. An enumerated sub-property sends AXFR and IXFR questions (unsigned, validly signed, wrongly keyed, stale) to the in-memory and the sqlite handler under every transfer policy through the catalog: a transfer only where the policy admits it.",
             "Trusts refm/tsig_ref.rs and ring's HMAC. Header ID, TSIG class/TTL, key-name case and octets after the last counted record are not covered by the MAC by design and modelled as such. The four findings of the first runs are repaired in /repo; none is open.",
             "DESIGN.md §7 C13"),
     "C14": ("fault_enumeration",
             "crash-point enumeration: for generated update histories on an on-disk journal every durable journal state (row count after each SQLite commit, observed through update/commit hooks) is a stop point (exhaustive per history); recovery compared with whole-message boundary states; second-level stops sampled",
-            "C12 histories run on a SqliteZoneHandler with a journal file; SQLite update/commit hooks on the journal's connection record, for every commit, the row count it makes durable and the serial visible in memory at that moment. For every such row count k the journal is copied, cut to k rows and the zone restarted on it through SqliteZoneHandler::try_from_config (the server binary's path): recovery must succeed, the recovered zone must equal a whole-message boundary state not older than the last acknowledged message, its serial must not be below any serial visible before the stop, and the remaining history must continue identically. Stops inside the initial dump are their own class; a second stop during the continuation is enumerated for a sample.",
+            "C12 histories run on a SqliteZoneHandler with a journal file; SQLite update/commit hooks on the journal's connection record, for every commit, the row count it makes durable and the serial visible in memory at that moment. For every such row count k the journal is copied, cut to k rows and the zone restarted on it through SqliteZoneHandler::try_from_config (the server binary's path): recovery must succeed, the recovered zone must equal a whole-message boundary state not older than the last acknowledged message, its serial must not be below any serial visible before the stop, and the remaining history must continue identically. Stops inside the initial dump are their own class; a second stop during the continuation is enumerated for a sample. Some histories hold one UPDATE of 501-900 records, some a message ending with an RR the prescan lets through although it carries RDATA in class ANY.",
             "A stop tears between SQLite commits, which are observed, not assumed (atomicity of one commit is trusted). Boundary states are snapshots of the running server (C12 decides separately that they are the RFC states). Findings (no transaction around the dump / around a message's rows: both repaired in /repo; empty journal accepted; SOA row in its own commit: known) are attributed by stop position; failures at boundaries stay VIOLATIONs.",
             "DESIGN.md §7 C14"),
     "C15": ("exploration",
             "property-based testing (proptest): insert/get/clear histories with explicit instants under the virtual clock against a pure TTL-cache reference model",
-            "Histories of ≤30 (thorough 40) operations over 3 queries with nanosecond times (steps of 0 / sub-second / seconds / jumps to the model's expiry ±{0,1 ns,0.5 s,1 s}) × TtlConfig built through its serde form (default / per-type, min>ttl, max<ttl, min=max, 0). Every hit must be the most recent cacheable insert, within its lifetime L, with every TTL = per-type clamped − ⌊elapsed⌋ floored at 0 and non-increasing; transient errors never come back. The hit ratio on certainly-live entries is measured (100 % in quick) so the check cannot go vacuous. clear/clear_query and the alias path (CNAME chain and target in one upstream response, preserve_intermediates on/off) are exercised through CachingClient::lookup over a scripted upstream: the entry must not be served after the smallest TTL of the chain. recursor_expiry carries the clauses to the recursor (which shares the cache): a query is resolved twice on an honest simulated internet with a pause of 0 s..3 h in virtual time; what the second resolution returns without any upstream datagram must have counted down by the pause, nothing after its TTL (3600 s), no negative answer after its negative TTL (300 s).",
+            "Histories of ≤30 (thorough 40) operations over 3 queries with nanosecond times (steps of 0 / sub-second / seconds / jumps to the model's expiry ±{0,1 ns,0.5 s,1 s}) × TtlConfig built through its serde form (default / per-type, min>ttl, max<ttl, min=max, 0). Every hit must be the most recent cacheable insert, within its lifetime L, with every TTL = per-type clamped − ⌊elapsed⌋ floored at 0 and non-increasing; transient errors never come back. The hit ratio on certainly-live entries is measured (100 % in quick) so the check cannot go vacuous. clear/clear_query and the alias path (CNAME chain and target in one upstream response, preserve_intermediates on/off) are exercised through CachingClient::lookup over a scripted upstream: the entry must not be served after the smallest TTL of the chain. recursor_expiry carries the clauses to the recursor (which shares the cache): a query is resolved twice on an honest simulated internet with a pause of 0 s..3 h in virtual time; what the second resolution returns without any upstream datagram must have counted down by the pause, nothing after its TTL (3600 s), no negative answer after its negative TTL (300 s). The TtlConfig is deserialised as a whole or assembled by builder calls (per-type bounds set once, or set and then overridden).",
             "Trusts refm/cache_ref.rs. L is read over the stored (per-type clamped) TTLs, as the statement's second clause words it; the reading over upstream TTLs is computed and counted only. None is always acceptable (eviction).",
             "DESIGN.md §7 C15"),
     "C16": ("exploration",
